@@ -91,9 +91,13 @@ def doc_scenarios(tier, seed):
         for crop in (["Tef", "Maize", "AlfalfaGDD"] if tier == "thorough" else [rnd.choice(["Tef", "Wheat"]), rnd.choice(["Maize", "AlfalfaGDD"])]):
             iw = rnd.choice(L.iwc_variants(nl))
             scs.append(S(crop, soil, seed=1, iwc=iw))
+        if nl >= 2:
+            for iw in L.iwc_variants(nl)[6:]:
+                scs.append(S("Wheat", soil, seed=1, iwc=iw))
     for key, spec in L.LAYERED_SOILS.items():
         nl = len(spec.get("layers", spec.get("texture_layers", [])))
-        for iw in L.iwc_variants(nl)[: (6 if tier == "thorough" else 3)]:
+        vs = L.iwc_variants(nl)
+        for iw in (vs if tier == "thorough" else vs[:3] + vs[6:]):
             scs.append(S(rnd.choice(["Wheat", "Cotton", "Potato"]), seed=1, soil_spec=spec, iwc=iw))
         scs.append(S("Sorghum", seed=1, soil_spec=spec, iwc={"wc_type": "Num", "method": "Depth", "depth_layer": [0.1, 0.45, 1.0, 1.7], "value": [0.12, 0.3, 0.22, 0.35]}))
         scs.append(S("Barley", seed=1, soil_spec=spec, iwc={"wc_type": "Num", "value": [0.2] * nl, "depth_layer": list(range(1, nl + 1))}))
